@@ -53,6 +53,9 @@ class Contract:
         self.stubs = dict(stubs or {})   # "Class.attr" -> (z3 function, owner class, result kind, 'property'|'method')
         REGISTRY.append(self)
 
+    def raises_nondeterministic(self):
+        return any(w is None for w in self.raises.values())
+
 
 def parse_expr(src):
     return ast.parse(src.strip(), mode="eval").body
@@ -134,6 +137,101 @@ def has_quantifier(e):
     return False
 
 
+def ground_terms(exprs, limit=40):
+    """Ground sub-terms by sort (candidates for instantiating universally quantified hypotheses)."""
+    by_sort = {}
+    seen = set()
+
+    def has_var(e, cache={}):
+        k = e.get_id()
+        if k not in cache:
+            cache[k] = z3.is_var(e) or any(has_var(c) for c in e.children()) or z3.is_quantifier(e)
+        return cache[k]
+
+    todo = list(exprs)
+    while todo:
+        e = todo.pop()
+        if e.get_id() in seen:
+            continue
+        seen.add(e.get_id())
+        if z3.is_quantifier(e):
+            todo.append(e.body())
+            continue
+        if z3.is_app(e):
+            todo.extend(e.children())
+            if not has_var(e) and not z3.is_bool(e):
+                srt = e.sort()
+                if srt.kind() in (z3.Z3_UNINTERPRETED_SORT, z3.Z3_SEQ_SORT, z3.Z3_INT_SORT):
+                    lst = by_sort.setdefault(srt.name() if srt.kind() != z3.Z3_SEQ_SORT else "String", [])
+                    if len(lst) < limit and len(str(e)) < 300:
+                        lst.append(e)
+    ints = by_sort.setdefault("Int", [])
+    for c in (0, 1, 2):
+        ints.append(z3.IntVal(c))
+    return by_sort
+
+
+def instantiate(h, terms, budget=150):
+    """Ground instances of the universally quantified conjuncts of a hypothesis (one level)."""
+    out = []
+
+    def sort_key(srt):
+        return "String" if srt.kind() == z3.Z3_SEQ_SORT else srt.name()
+
+    def rec(e, guard):
+        if z3.is_and(e):
+            for c in e.children():
+                rec(c, guard)
+        elif z3.is_implies(e) and not has_quantifier(e.arg(0)):
+            rec(e.arg(1), guard + [e.arg(0)])
+        elif z3.is_quantifier(e) and e.is_forall():
+            import itertools
+            doms = []
+            for i in range(e.num_vars()):
+                doms.append(terms.get(sort_key(e.var_sort(i)), [])[:12])
+            n = 0
+            for combo in itertools.product(*doms):
+                n += 1
+                if n > budget:
+                    break
+                # de Bruijn: variable 0 is the LAST bound variable
+                inst = z3.substitute_vars(e.body(), *reversed(combo))
+                inst = z3.simplify(inst)
+                if not has_quantifier(inst):
+                    out.append(z3.Implies(z3.And(guard), inst) if guard else inst)
+                elif z3.is_implies(inst) or z3.is_and(inst) or z3.is_quantifier(inst):
+                    # one more level for nested universal quantifiers
+                    sub = instantiate_inner(inst, terms)
+                    for x in sub:
+                        out.append(z3.Implies(z3.And(guard), x) if guard else x)
+        elif not has_quantifier(e):
+            out.append(z3.Implies(z3.And(guard), e) if guard else e)
+
+    def instantiate_inner(e, terms_):
+        res = []
+        if z3.is_implies(e) and not has_quantifier(e.arg(0)):
+            for x in instantiate_inner(e.arg(1), terms_):
+                res.append(z3.Implies(e.arg(0), x))
+        elif z3.is_and(e):
+            for c in e.children():
+                res += instantiate_inner(c, terms_)
+        elif z3.is_quantifier(e) and e.is_forall():
+            import itertools
+            doms = [terms_.get(sort_key(e.var_sort(i)), [])[:8] for i in range(e.num_vars())]
+            for n, combo in enumerate(itertools.product(*doms)):
+                if n > 60:
+                    break
+                inst = z3.simplify(z3.substitute_vars(e.body(), *reversed(combo)))
+                if not has_quantifier(inst):
+                    res.append(inst)
+        elif not has_quantifier(e):
+            res.append(e)
+        return res
+
+    rec(h, [])
+    return out
+
+
 def _solve(hyps, cond, timeout, **opts):
     s = z3.Solver()
     s.set("timeout", timeout)
@@ -158,19 +256,44 @@ def discharge(axioms, pc, cond, timeout):
     ax = relevant_axioms(axioms, pc, cond)
     hyps = ax + list(pc)
     ms = lambda: (time.time() - t0) * 1000
-    attempts = [({}, timeout), ({"smt.mbqi": False, "smt.random_seed": 7}, timeout // 2),
-                ({"smt.random_seed": 3}, timeout // 2), ({"smt.mbqi": False, "smt.random_seed": 11}, timeout // 2)]
     quantified = any(has_quantifier(h) for h in hyps) or has_quantifier(cond)
-    for i, (opts, to) in enumerate(attempts):
+    first = [({}, min(timeout, 5000)), ({"smt.mbqi": False, "smt.random_seed": 7}, min(timeout, 5000))]
+    later = [({"smt.random_seed": 3}, timeout), ({"smt.mbqi": False, "smt.random_seed": 11}, timeout)]
+    for opts, to in first:
         r, m = _solve(hyps, cond, max(to, 1000), **opts)
         if r == z3.unsat:
             return "proved", None, ms(), True
         if r == z3.sat:
             return "failed", m, ms(), True
         if not quantified:
-            break
+            return "unknown", None, ms(), False
     ground = [h for h in hyps if not has_quantifier(h)]
-    r2, m2 = _solve(ground, cond, max(timeout // 2, 2000))
+    r2, m2 = _solve(ground, cond, 4000)
+    if r2 == z3.unsat:
+        return "proved", None, ms(), True
+    if r2 == z3.sat:
+        # refine the candidate: add ground instances of the quantified hypotheses at the terms of the VC
+        try:
+            terms = ground_terms(hyps + [cond])
+            inst = []
+            for h in hyps:
+                if has_quantifier(h):
+                    inst += instantiate(h, terms)
+            r3, m3 = _solve(ground + inst, cond, 6000)
+            if r3 == z3.unsat:
+                return "proved", None, ms(), True
+            if r3 == z3.sat:
+                m2 = m3
+        except z3.Z3Exception:
+            pass
+    for opts, to in later:
+        r, m = _solve(hyps, cond, max(to, 1000), **opts)
+        if r == z3.unsat:
+            return "proved", None, ms(), True
+        if r == z3.sat:
+            return "failed", m, ms(), True
+        if r2 == z3.sat:
+            break     # a candidate exists: one more attempt was enough
     if r2 == z3.sat:
         return "failed", m2, ms(), False
     return "unknown", None, ms(), False
@@ -363,10 +486,22 @@ def contract_handler(c):
                     frame[n] = k
                 else:
                     raise Untranslatable(f"call of {c.name} by contract: missing argument {n}", node)
+        pure = (c.frame == [] and not c.raises_nondeterministic())
+        memo_key = None
+        if pure:
+            try:
+                memo_key = (c.name, tuple(v.term.get_id() if isinstance(v, V) else repr(v) for v in frame.values()), st.heap_sig())
+            except Exception:
+                memo_key = None
+            if memo_key is not None and memo_key in st.memo and not c.raises:
+                yield st, st.memo[memo_key]
+                return
         st.frames.append(frame)
         try:
             for i, r in enumerate(c.requires):
                 t = eng.ev_merged(parse_expr(r), st, want_bool=True)
+                if eng.no_prune:
+                    continue      # spec evaluation: preconditions of pure getters are the spec writer's duty
                 eng.oblige(st, f"call.{c.name}.requires{i}", t.term, node, kind="pre")
             pre = st.copy()
             outcomes = [(st, None)]
@@ -407,6 +542,8 @@ def contract_handler(c):
                 finally:
                     eng.entry_state = saved
                 stx.frames.pop()
+                if memo_key is not None:
+                    stx.memo[memo_key] = result
                 yield stx, result
         finally:
             pass
